@@ -284,8 +284,10 @@ func c17Requests(u *schema.Universe) []c17Req {
 		}
 	}
 	call := func(w *c17World, tid int, r *schema.Resource, method string, args ...interface{}) string {
+		// (the caller keeps the header object it hands out: it must come back untouched)
+		mine := http.Header{"X-Verif-Thread": []string{fmt.Sprint(tid)}}
 		ctx := restli.ExtraRequestHeaders(context.Background(), func() (http.Header, error) {
-			return http.Header{"X-Verif-Thread": []string{fmt.Sprint(tid)}}, nil
+			return mine, nil
 		})
 		m := w.clients[r.Namespace].MethodByName(method + "WithContext")
 		in := []reflect.Value{reflect.ValueOf(ctx)}
@@ -315,6 +317,9 @@ func c17Requests(u *schema.Universe) []c17Req {
 			} else {
 				parts = append(parts, fmt.Sprint(derefAll(o)))
 			}
+		}
+		if len(mine) != 1 || len(mine["X-Verif-Thread"]) != 1 || mine["X-Verif-Thread"][0] != fmt.Sprint(tid) {
+			parts = append(parts, fmt.Sprintf("CALLER HEADER OBJECT MODIFIED: %v", mine))
 		}
 		return strings.Join(parts, " | ")
 	}
@@ -457,6 +462,11 @@ func c17Harness(u *schema.Universe, combo []c17Req, iso map[string]string, resul
 				want := normalise(iso[r.Name], 0)
 				if got != want {
 					return fmt.Errorf("request %q (thread %d) observed\n%s\n--- but in isolation it observes\n%s", r.Name, i, indent(got), indent(want))
+				}
+			}
+			for i, r := range combo {
+				if strings.Contains(clientOut[i], "CALLER HEADER OBJECT MODIFIED") {
+					return fmt.Errorf("request %q (thread %d): the http.Header handed out by the caller's ExtraRequestHeaders function was written to by the client: %s", r.Name, i, clientOut[i][strings.Index(clientOut[i], "CALLER HEADER"):])
 				}
 			}
 			// the shared error object must be untouched
